@@ -107,7 +107,8 @@ ADDED = {
  "C16": " C16_only_link_failures_end_the_link is a theorem of M2 now (Receive refusing a done context, and a stub panicking on a call outcome — fact panicSitesCanonical — are model behaviour; witnesses on the flipped skeletons), C16_link_returns_the_slot, C16_proxy_failures_are_fatal; raw-peer children (bad closure id, refused error-response); fail-then-cancel; C16_setErr_waits_for_nobody (setErr takes only its own lock; the loops reach it without waiting); in-callback and context-wrapping fault cases.",
  "C17": " C17_closure_arglist_is_array + frames of closure invocations (0 and 2 closure arguments) decoded independently.",
 }
-STATE_PROPS = {"C01", "C02", "C03", "C04", "C05", "C06", "C07", "C09", "C10", "C11", "C12", "C13", "C14", "C15", "C16", "C19", "C20"}
+STATE_PROPS = {"C01", "C02", "C03", "C04", "C05", "C06", "C07", "C08", "C09", "C10", "C11", "C12", "C13", "C14", "C15", "C16", "C17", "C19", "C20"}
+FOUNDATION_PROPS = {"C01", "C02", "C03", "C04", "C05", "C06", "C08", "C09", "C10", "C11", "C12", "C13", "C15", "C16", "C17", "C20"}
 PENDING = {}
 checks = []
 na = []
@@ -118,6 +119,8 @@ for p in props:
         text = text + ADDED.get(pid, "")
         if pid in STATE_PROPS:
             text += " Also checked on every run (Props/State.lean): the state-holding structs have exactly the fields the models' state spaces were written from, there is no mutable package-level state, every function body releases what it locks on every path, every error branch reports with one of its own statements and leaves."
+        if pid in FOUNDATION_PROPS:
+            text += " Also checked on every run (Props/Foundation.lean): the contract of the shared infrastructure the model assumes — utils.Call recovers every panic, re-raises none and hands results back untouched; Receive fails only on a closed table; only failures of the link travel as panics into setErr; the codec methods are plain; the closure manager's table, ids, lock discipline, release and exported method set; loops and transport wrappers never wait; no package-level state."
         checks.append({
             "property_id": pid,
             "quick_cmd": f"./check {pid} --tier quick",
